@@ -519,22 +519,15 @@ func ruleLateralPush(c *core.Ctx) {
 			continue
 		}
 		n++
-		info := s.Pkg.TypesInfo
-		ok := false
-		if id, isID := s.Call.Args[2].(*ast.Ident); isID {
-			obj := info.Uses[id]
-			ast.Inspect(s.Encl.Body, func(x ast.Node) bool {
-				if as, isAs := x.(*ast.AssignStmt); isAs && len(as.Rhs) == 1 && len(as.Lhs) == 1 {
-					if l, isL := as.Lhs[0].(*ast.Ident); isL && info.ObjectOf(l) == obj {
-						if call, isCall := as.Rhs[0].(*ast.CallExpr); isCall {
-							if f := astx.Callee(info, call); f != nil && f.Name() == "canPushAddressFilterToLateral" && len(call.Args) == 1 && strings.HasSuffix(astx.SelectorPath(call.Args[0]), ".Builder") {
-								ok = true
-							}
-						}
-					}
-				}
-				return true
-			})
+		ok := true
+		origins := originThroughCallers(c, s.EnclObj, s.Call.Args[2])
+		if len(origins) == 0 {
+			ok = false
+		}
+		for _, o := range origins {
+			if !(strings.HasPrefix(o, "canPushAddressFilterToLateral(") && strings.HasSuffix(strings.TrimSuffix(o, ")"), ".Builder")) {
+				ok = false
+			}
 		}
 		c.Check(ok, "DOM/lateral-push", fmt.Sprintf("%s:call#%d", astx.FuncKey(s.EnclObj), n), pos(c, s.Call), "canPush = canPushAddressFilterToLateral(query.Builder)", "the lateral address filter is pushed with a safety flag that does not come from canPushAddressFilterToLateral(query.Builder): filters under $not / mixed $or would lose rows")
 	}
